@@ -189,6 +189,43 @@ def hands_out_values_mutably(a):
     return False
 
 
+def topk_last_chunk(ctx, f, k):
+    """top-k through `values.last_chunk::<k>()` (std: Some(the last k elements, in order) exactly when len >= k):
+    returns (components are chunk[k-1], chunk[k-2], .., chunk[0] = top first; too few -> Underflow{k, size}) or None when
+    the function is not of that shape"""
+    import re
+    from . import ckit as K
+    paths = K.live(ctx.cpaths(f))
+    lcs = {K.strip(c, calls=()) for p in paths for c in p.calls() if callee_is(c, "[T]::last_chunk")}
+    if len(lcs) != 1 or len(paths) != 2:
+        return None
+    lc = list(lcs)[0]
+    m = re.search(r"last_chunk::<(\d+)(?:_usize)?>\s*$", lc[2] or "")
+    if not (m and int(m.group(1)) == k and len(lc[3]) == 1 and _values_slice(lc[3][0])):
+        return None
+    order_ok = under_ok = False
+    for p in paths:
+        if [c for c in p.calls() if not callee_is(c, "[T]::last_chunk", "Deref::deref", "Stack::size", "Vec::len", "Vec::as_slice")]:
+            return None
+        kind, pay = K.outcome(p)
+        if K.discr_is(p, lambda o: K.strip(o, calls=()) == lc, 1):
+            comps = pay[3] if (kind == "ok" and pay is not None and pay[0] == "agg" and pay[1] == "tuple") else ()
+            idx = []
+            for c in comps:
+                c = K.strip(c, calls=())
+                if c[0] == "index" and K.strip(c[1], calls=()) == ("field", lc, 0, "Some") and c[2][0] == "const" and isinstance(c[2][-1], int):
+                    idx.append(c[2][-1])
+                elif c[0] == "field" and K.strip(c[1], calls=()) == ("field", lc, 0, "Some") and isinstance(c[2], int):
+                    idx.append(c[2])
+                else:
+                    idx.append(None)
+            order_ok = len(comps) == k and idx == list(range(k - 1, -1, -1))
+        elif K.discr_is(p, lambda o: K.strip(o, calls=()) == lc, 0):
+            u = K.conv_free(pay) if pay is not None else None
+            under_ok = kind == "err" and u is not None and match(u, Agg("StackError::Underflow", Const(k), lambda e: is_size(e)))
+    return (order_ok, under_ok)
+
+
 def grows(p):
     return [c for c in p.calls() if callee_is(c, "Vec::push", "Extend::extend", "Vec::extend", "Vec::insert", "Vec::append", "Vec::extend_from_slice", "Vec::resize")]
 
@@ -342,6 +379,10 @@ def try_extend_rules(ctx, f):
             if okr:
                 tgt = peel(rv[0][3][0], ())
                 okr = callee_is(tgt, "IndexMut::index_mut") and is_values(tgt[3][0]) and match(tgt[3][1], Agg("RangeFrom::RangeFrom", lambda e: e == saved[0])) and cs.index(ext[0]) < cs.index(rv[0])
+                if not okr and tgt[0] == "field" and tgt[2] == 1 and callee_is(peel(tgt[1], ()), "[T]::split_at_mut"):
+                    # values.split_at_mut(saved_len).1 is values[saved_len..] (std: the second half starts at `mid`)
+                    sp = peel(tgt[1], ())
+                    okr = len(sp[3]) == 2 and is_values(peel(sp[3][0], ("DerefMut::deref_mut", "Vec::as_mut_slice"))) and sp[3][1] == saved[0] and cs.index(ext[0]) < cs.index(rv[0])
             ctx.check(okr, "R04.4", "try_extend/reverses-exactly-the-new-tail", ", ".join(short(c, 5) for c in rv), f.at(),
                       bad_detail="on success try_extend must reverse values[saved_len..] (so that the first supplied value is on top); extracted " + ", ".join(short(c, 6) for c in rv))
     ctx.floor("R04.1", len(paths), 2, "try_extend paths")
@@ -681,6 +722,12 @@ def try_extend_rules(ctx, f):
             nexts = rev_iter_nexts(q)
             offs = [from_end_offset(c, k, nexts) for c in r[3][0][3]]
             good = good and offs == list(range(1, k + 1))
+        lc = None
+        if not good:
+            lc = topk_last_chunk(ctx, f, k)
+            good = lc is not None and lc[0]
+            if good:
+                offs = list(range(1, k + 1))
         ctx.check(good, "R04.4", "%s/(top,second%s)-indices" % (name, ",third" if k == 3 else ""), ("offsets from the end %s: " % offs) + (short(okp[0].ret, 4)[:200] if okp else "-"), f.at(),
                   bad_detail="%s must return (last, values[len-2]%s); extracted offsets from the end %s in %s" % (name, ", values[len-3]" if k == 3 else "", offs, short(okp[0].ret, 8) if okp else "-"))
         # Underflow payloads of the size check
@@ -699,6 +746,8 @@ def try_extend_rules(ctx, f):
                 lt = any(len_lt_k(c[0], c[1], k) for c in p.conds) or \
                     any(c[0][0] == "discr" and c[0][1] in nx and c[1] != 1 and nx.index(c[0][1]) < k for c in p.conds)
                 okc = okc and lt and u is not None and match(u, Agg("StackError::Underflow", Const(k), lambda e: is_size(e)))
+        if not okc and lc is not None:
+            okc = lc[1]
         ctx.check(okc, "R04.3", "%s/too-few->Underflow{%d,size}" % (name, k), "size check", f.at(),
                   bad_detail="%s must report Underflow{num_requested: %d, num_present: size()} exactly when fewer than %d elements are present" % (name, k, k))
     for name, pat in (("size", lambda e: callee_is(e, "Vec::len") and is_values(e[3][0])), ("is_empty", lambda e: callee_is(e, "Vec::is_empty") and is_values(e[3][0])), ("max_stack_size", is_max)):
@@ -717,6 +766,8 @@ def stack_discharge():
     return [
         {"fn": "Stack<A> as collectable::TryExtend<A>>::try_extend", "what": "IndexMut::index_mut",
          "reason": "values[saved_len..]: saved_len was values.len() at entry and only an extension happened since (len >= saved_len)", "guard": guard_tail_range},
+        {"fn": "Stack<A> as collectable::TryExtend<A>>::try_extend", "what": "[T]::split_at_mut",
+         "reason": "values.split_at_mut(saved_len): panics iff saved_len > len; saved_len was values.len() at entry and only an extension happened since", "guard": guard_tail_split},
         {"fn": "push_vm::stack::Stack::<T>::top3", "what": "Overflow:Add",
          "reason": "index_third_to_top + 1 with index_third_to_top = len - 3 (checked_sub succeeded) cannot overflow", "guard": guard_top3_add},
         {"fn": "push_vm::stack::Stack::<T>::top3::{closure#", "what": "Overflow:Sub",
@@ -734,6 +785,19 @@ def guard_tail_range(ctx, s):
                 shr = [x for x in cs[:cs.index(c)] if callee_is(x, "Vec::truncate", "Vec::pop", "Vec::clear", "Vec::drain", "Vec::remove", "Vec::split_off")]
                 ok = bool(saved) and match(c[3][1], Agg("RangeFrom::RangeFrom", lambda e: e == saved[0])) and not shr and is_values(c[3][0])
                 return ok, "range from the saved length, no shrinking call before"
+    return False, "site not found"
+
+
+def guard_tail_split(ctx, s):
+    fn = ctx.F.fns[s["fn"]]
+    for p in ctx.paths(fn):
+        cs = p.calls()
+        for c in cs:
+            if site_is(c, s):
+                saved = [x for x in cs if callee_is(x, "Vec::len") and is_values(x[3][0])]
+                shr = [x for x in cs[:cs.index(c)] if callee_is(x, "Vec::truncate", "Vec::pop", "Vec::clear", "Vec::drain", "Vec::remove", "Vec::split_off")]
+                ok = bool(saved) and len(c[3]) == 2 and c[3][1] == saved[0] and not shr and is_values(peel(c[3][0], ("DerefMut::deref_mut", "Vec::as_mut_slice")))
+                return ok, "split at the saved length, no shrinking call before"
     return False, "site not found"
 
 
